@@ -406,7 +406,7 @@ def cases(draw, via_weights=("summary",) * 9 + ("open_alos2",)):
         "level": level,
         "images": [{"pol": p, "scan": s, "lines": 1, "pixels": 1} for p, s in picked],
         "sections": sorted(draw(st.sets(st.sampled_from(sorted(SECTION_NAMES)), min_size=0))),
-        "n_shapes": draw(st.integers(0, 3)),
+        "n_shapes": draw(st.one_of(st.integers(0, 3), st.integers(0, 16))),
         "newline": draw(st.sampled_from(["\n", "\n", "\r\n"])),
         "trailing_newline": draw(st.booleans()),
         "shuffled": draw(st.sampled_from([True, True, True, False])),
